@@ -2,6 +2,7 @@ package main
 
 import (
 	"bytes"
+	"encoding/gob"
 	"encoding/hex"
 	"encoding/json"
 	"fmt"
@@ -281,6 +282,37 @@ func (propC16) Run(scI interface{}) *Outcome {
 			return fail("serialise→deserialise does not reproduce "+f, fmt.Sprintf("#%d name=%q len(source)=%d lastmod=%d ct=%d -> name=%q len=%d lastmod=%d ct=%d", i, s.c.Name, len(s.c.Source), s.c.LastModified, s.c.CompileTime, back.Name, len(back.Source), back.LastModified, back.CompileTime))
 		}
 		o.Probes["roundtrips"]++
+		// the old gob encoding of the same value must still decode to the same fields
+		var gb bytes.Buffer
+		if err := gob.NewEncoder(&gb).Encode(s.c); err == nil && i%3 == 0 {
+			old, err := twig.DeserializeCompiledTemplate(gb.Bytes())
+			if err != nil {
+				return fail("deserialise of the legacy gob encoding failed", fmt.Sprintf("#%d %q: %v", i, s.c.Name, err))
+			}
+			if f := sameCompiled(s.c, old); f != "" {
+				return fail("legacy gob encoding does not reproduce "+f, fmt.Sprintf("#%d %q", i, s.c.Name))
+			}
+			o.Probes["gob_roundtrips"]++
+		}
+	}
+	// Template.SaveCompiled is the one-call form of compile+serialise
+	for _, n := range names {
+		t := twig.VerifCached(A)[n]
+		if t == nil {
+			continue
+		}
+		data, err := t.SaveCompiled()
+		if err != nil {
+			return fail("Template.SaveCompiled failed", fmt.Sprintf("%s: %v", n, err))
+		}
+		back, err := twig.DeserializeCompiledTemplate(data)
+		if err != nil {
+			return fail("deserialise of Template.SaveCompiled bytes failed", fmt.Sprintf("%s: %v", n, err))
+		}
+		_, src, lm, _ := twig.VerifTemplateMeta(t)
+		if back.Name != n || back.Source != src || back.LastModified != lm {
+			return fail("Template.SaveCompiled does not reproduce name/source/LastModified", n)
+		}
 	}
 	// engine B
 	hubB := &spyHub{per: []*Spies{newSpies()}}
@@ -306,12 +338,23 @@ func (propC16) Run(scI interface{}) *Outcome {
 	default:
 		o.Probes["via_disk"]++
 		clA := twig.NewCompiledLoader("cache")
-		for _, n := range names {
-			if err := clA.SaveCompiled(A, n); err != nil {
+		if sc.WorldSeed%2 == 0 {
+			// CompileAll saves every cached template of the engine in one call
+			if err := clA.CompileAll(A); err != nil {
 				if !faulted {
-					return fail("SaveCompiled failed without a disk fault", fmt.Sprintf("%s: %v", n, err))
+					return fail("CompileAll failed without a disk fault", err.Error())
 				}
 				transferred = false
+			}
+			o.Probes["compile_all"]++
+		} else {
+			for _, n := range names {
+				if err := clA.SaveCompiled(A, n); err != nil {
+					if !faulted {
+						return fail("SaveCompiled failed without a disk fault", fmt.Sprintf("%s: %v", n, err))
+					}
+					transferred = false
+				}
 			}
 		}
 		if transferred && !faulted {
